@@ -44,6 +44,71 @@ def str_distinct_axioms():
     return [z3.Distinct(*vals)] if len(vals) > 1 else []
 
 
+# Functions assumed injective (f-string formatting, uuid5): name -> (f, [inverse per argument]).
+# Their axioms are ground-instantiated per query (see theory_axioms) so that no quantifier reasoning
+# is needed for them and `sat` answers remain obtainable.
+INJECTIVE: dict[str, tuple] = {}
+
+
+def register_injective(f, arg_positions=None):
+    name = f.name()
+    if name not in INJECTIVE:
+        n = f.arity()
+        pos = list(range(n)) if arg_positions is None else list(arg_positions)
+        invs = {j: z3.Function(f"{name}_inv{j}", f.range(), f.domain(j)) for j in pos}
+        INJECTIVE[name] = (f, invs)
+    return INJECTIVE[name]
+
+
+def theory_axioms(assertions):
+    """String-literal distinctness + injectivity instances for every application occurring in `assertions`."""
+    out = list(str_distinct_axioms())
+    if not INJECTIVE:
+        return out
+    apps, nonground = {}, set()
+    seen = set()
+    stack = list(assertions)
+    while stack:
+        e = stack.pop()
+        if e.get_id() in seen:
+            continue
+        seen.add(e.get_id())
+        if z3.is_quantifier(e):
+            stack.append(e.body())
+            continue
+        if z3.is_app(e):
+            nm = e.decl().name()
+            if nm in INJECTIVE and e.num_args() > 0:
+                if _contains_var(e):
+                    nonground.add(nm)
+                else:
+                    apps[e.get_id()] = e
+            stack.extend(e.children())
+    for e in apps.values():
+        f, invs = INJECTIVE[e.decl().name()]
+        for j, inv in invs.items():
+            out.append(inv(e) == e.arg(j))
+    for nm in nonground:
+        f, invs = INJECTIVE[nm]
+        bvs = [z3.Const(f"inj{j}", f.domain(j)) for j in range(f.arity())]
+        for j, inv in invs.items():
+            out.append(z3.ForAll(bvs, inv(f(*bvs)) == bvs[j]))
+    return out
+
+
+def _contains_var(e):
+    stack, seen = [e], set()
+    while stack:
+        x = stack.pop()
+        if x.get_id() in seen:
+            continue
+        seen.add(x.get_id())
+        if z3.is_var(x):
+            return True
+        stack.extend(x.children())
+    return False
+
+
 def str_lit_table():
     return dict(_str_lits)
 
@@ -368,6 +433,8 @@ def ite(c, a: V, b: V) -> V:
 
 def eq(a: V, b: V):
     """z3 Bool for python `a == b` on modelled values (structural)."""
+    if a is b:
+        return z3.BoolVal(True)
     if isinstance(a, Opt) or isinstance(b, Opt):
         an, bn = is_none(a), is_none(b)
         av, bv = strip_opt(a), strip_opt(b)
